@@ -4,6 +4,7 @@ import OnlVerif.Lemmas.SplitStep
 import OnlVerif.Lemmas.SplitDemo
 import OnlVerif.Lemmas.SplitDemoTime
 import OnlVerif.Lemmas.SplitScript
+import OnlVerif.Lemmas.SplitFuelStep
 import OnlVerif.Props.C01
 /-!
 # C03 — runs are reproducible and unaffected by where they are stopped and resumed
@@ -258,9 +259,10 @@ commutes with the model on states after the split.  Hypotheses of the theorems:
 * `SortedAg s` — the agenda list is newest-first (`eid`s decreasing, below the counter); kept by every step.
 * `c.FuelAlong body fuel s` — `Condition._build_value` of a condition with id `cd` recurses with fuel `cd + 1`; in the split
   run that is `cd + 2` for conditions created after the split; the hypothesis says one more unit changes nothing, in the
-  states of the uninterrupted run in which a `_build_value` runs (true whenever operands are older than their condition;
-  vacuous for conditions created before the split, `FuelOK_of_lt`, and when no `_build_value` is pending,
-  `stepFuelOK_of_noBuild`). -/
+  states of the uninterrupted run in which a `_build_value` runs.  It follows from two state invariants at step
+  boundaries (`fuel_hypothesis_of_wellformed`: operands are older than their condition, `CondWF`, and `_build_value`
+  callbacks belong to allocated conditions, `BuildAlloc`); it is vacuous for conditions created before the split
+  (`FuelOK_of_lt`) and when no `_build_value` is pending (`stepFuelOK_of_noBuild`). -/
 
 /-- **The step that pops the sentinel does nothing else**: it advances the clock to `t`, marks the sentinel record processed
 and raises `StopSimulation(None)`; the state it leaves, `c.afterSentinel s`, is the uninterrupted state `s` up to the
@@ -322,6 +324,13 @@ theorem after_time_split_lockstep_partial (c : SplitCfg σ) (body : σ → Resum
       (c.T false sj).trace = sj.trace.map (rnObs c.ρ) :=
   ⟨c.after_split_lockstep body hB fuel j sk sj hi hf h, rfl⟩
 
+/-- **The fuel hypothesis follows from two invariants of the states of the uninterrupted run** (at step boundaries):
+`CondWF` — the operands of every condition are older than the condition — and `BuildAlloc` — a `_build_value` callback
+belongs to an allocated condition.  (Both hold in every reachable state of an API-only program; not proved here.) -/
+theorem fuel_hypothesis_of_wellformed (c : SplitCfg σ) (body : σ → Resume → Burst ℚ σ) (fuel : Nat) (s : KState ℚ σ)
+    (h : ∀ j sj, stepN body fuel j s = .ok sj → CondWF sj ∧ BuildAlloc sj) : c.FuelAlong body fuel s :=
+  fun j sj hj => c.stepFuelOK_of_wf body fuel sj (h j sj hj).1 (h j sj hj).2
+
 /-- **Every program of the script language treats event ids as opaque tokens** (`BodySim` for every renaming): the
 programs the correspondence check generates and runs on the real kernel satisfy the program hypothesis of the stage-3
 theorems, provided the value literals in the program text are not event ids (`ProgsClosed`). -/
@@ -348,8 +357,9 @@ What remains open for `split_transparent` (everything else above is proved for e
   of the uninterrupted run.
 * stage 3 (`run(until=number)`) is proved as a simulation up to the id renaming `shAt u`, under hypotheses that are
   invariants of reachable states but are not proved to be: `c.Closed s` at the split (no id is used before it is
-  allocated) and `c.FuelAlong` (operands of a condition are older than the condition, so the id-dependent recursion fuel
-  of `Condition._build_value` is never the limit).  Discharging them needs one more walk through the model for the
+  allocated) and `c.FuelAlong` (reduced by `fuel_hypothesis_of_wellformed` to: operands of a condition are older than the
+  condition, `_build_value` callbacks belong to allocated conditions — so the id-dependent recursion fuel of
+  `Condition._build_value` is never the limit).  Discharging them needs one more walk through the model for the
   well-scopedness invariant (`KRel` is too coarse for it: its `newEv`/`addCb` leaves allow arbitrary records and
   callbacks).  `BodySim` (programs treat ids as opaque) is a genuine hypothesis on model programs, not a gap.
 * chaining several numeric splits needs `Closed` of the state *after* a split — the same missing invariant.
